@@ -102,6 +102,28 @@ pub fn alphabet_c12() -> Vec<Ev> {
     v
 }
 
+pub const A0: u32 = 0x000000;
+
+/// C12 over every extended-squitter type code and the all-zero address: DF17 frames of all 32 type codes (payload
+/// otherwise zero; those the decoder rejects are left out) from address 000000 and from a1, a few DF18 forms, one non-ES
+pub fn alphabet_c12_typecodes() -> Vec<Ev> {
+    let mut v = vec![];
+    for (n, a) in [("a0", A0), ("a1", A1)] {
+        for tc in 0..32u64 {
+            let bytes = enc::es_frame(17, 5, a, tc << 51);
+            if adsb_deku::Frame::from_bytes(&bytes).is_ok() {
+                v.push(fr(&format!("{n}.tc{tc}"), bytes));
+            }
+        }
+    }
+    v.push(fr("a0.identAAA", enc::es_frame(17, 5, A0, enc::me_ident(4, 0, "AAA"))));
+    v.extend(pos_letters("a0.p1", A0, (35.2, -80.2), 10000));
+    v.push(fr("a0.df18.tc23", enc::df18_with_pi(2, A0, 23u64 << 51, A1)));
+    v.push(fr("a1.df18.tc23", enc::df18_with_pi(2, A1, 23u64 << 51, A0)));
+    v.push(fr("nonES.df11.a0", enc::df11_frame(5, A0, 0)));
+    v
+}
+
 /// C12 "the tracked set only ever shrinks through expiry": accounting letters of two aircraft interleaved with expiry
 /// calls while virtual time advances one second per event (so a record is 0..depth seconds old when prune runs)
 pub fn alphabet_c12_expiry() -> Vec<Ev> {
@@ -116,6 +138,22 @@ pub fn alphabet_c12_expiry() -> Vec<Ev> {
     v.push(fr("nonES.df11", enc::df11_frame(5, A1, 0)));
     v.push(Ev::Prune(2));
     v.push(Ev::Prune(3));
+    v
+}
+
+/// position reports of every carrier: DF17 barometric (TC 11), DF17 GNSS height (TC 21), DF18 barometric, DF18 GNSS
+/// height (TC 20) along one flight - the tracker rules do not depend on the carrier
+pub fn alphabet_c13_carriers(rx: (f64, f64)) -> Vec<Ev> {
+    let start = dest(rx, 20.0, 45.0);
+    let pts: Vec<(f64, f64)> = (0..4).map(|i| dest(start, 2.0 * i as f64, 60.0)).collect();
+    let mut v = vec![];
+    v.extend(pos_letters("a1.f0", A1, pts[0], 10000));
+    for odd in [false, true] {
+        let par = if odd { "odd" } else { "even" };
+        v.push(fr(&format!("a1.df18gnss.f1.{par}"), enc::df18_with_pi(2, A1, enc::me_pos_latlon(20, 10100, odd, pts[1].0, pts[1].1), A2)));
+        v.push(fr(&format!("a1.df17gnss.f2.{par}"), enc::es_frame(17, 5, A1, enc::me_pos_latlon(21, 10200, odd, pts[2].0, pts[2].1))));
+        v.push(fr(&format!("a1.df18baro.f3.{par}"), enc::df18_with_pi(6, A1, enc::me_pos_latlon(12, 10300, odd, pts[3].0, pts[3].1), A2)));
+    }
     v
 }
 
@@ -236,6 +274,29 @@ pub fn alphabet_c13_deep(rx: (f64, f64), range: f64) -> Vec<Ev> {
         .collect()
 }
 
+/// altitude codes in paired reports: 0x20a is the one 12-bit code that decodes to exactly 0 ft (a legal altitude, not
+/// "no altitude"), 0x000 carries no altitude at all
+pub fn alphabet_c14_altitudes(rx: (f64, f64)) -> Vec<Ev> {
+    let p0 = dest(rx, 15.0, 10.0);
+    let mut v = vec![];
+    for (name, ac) in [("alt0ft", 0x20au64), ("noalt", 0), ("alt10000", enc::ac12_q(10000)), ("alt100ft", enc::ac12_q(100))] {
+        for odd in [false, true] {
+            let (yz, xz) = crate::cprref::encode(p0.0, p0.1, odd);
+            v.push(fr(&format!("a1.{name}.{}", if odd { "odd" } else { "even" }), enc::es_frame(17, 5, A1, enc::me_pos(11, 0, 0, ac, 0, odd, yz, xz))));
+        }
+    }
+    v
+}
+
+/// two positions of one aircraft, both parities: periodic words over these four letters publish a different position
+/// (a required track entry) on most events - for histories of more than a thousand publications
+pub fn alphabet_c14_longtrack(rx: (f64, f64)) -> Vec<Ev> {
+    let mut v = vec![];
+    v.extend(pos_letters("a1.p0", A1, dest(rx, 15.0, 10.0), 10000));
+    v.extend(pos_letters("a1.p1", A1, dest(rx, 17.0, 12.0), 11000));
+    v
+}
+
 pub fn alphabet_c14(rx: (f64, f64)) -> Vec<Ev> {
     let mut v = vec![];
     let p0 = dest(rx, 15.0, 10.0);
@@ -267,12 +328,15 @@ pub fn alphabet_c15(t: u64) -> Vec<Ev> {
         fr("nonES.df11.a1", enc::df11_frame(5, A1, 0)),
         fr("a1.df18.tc0", enc::df18_with_pi(0, A1, 0, A2)),
         fr("a1.tc31", enc::es_frame(17, 5, A1, 31u64 << 51)),
+        fr("a1.tc23", enc::es_frame(17, 5, A1, 23u64 << 51)),
         fr("a2.vel0", enc::es_frame(17, 5, A2, enc::me_vel_gs(1, 0, 0, 0, 5, 0, 0, 3))),
         fr("a1.p.even", enc::es_frame(17, 5, A1, enc::me_pos_latlon(11, 10000, false, 35.2, -80.2))),
         fr("a1.p.odd", enc::es_frame(17, 5, A1, enc::me_pos_latlon(11, 10000, true, 35.2, -80.2))),
         Ev::Wait(1),
         Ev::Prune(t),
     ];
+    // "never expire": the largest threshold
+    v.push(Ev::Prune(u64::MAX));
     if t > 0 {
         v.push(Ev::Wait(ns * 4 / 10));
         v.push(Ev::Wait(ns * 6 / 10));
